@@ -435,6 +435,9 @@ func runC11(c *Ctx) {
 				if cl, ok := v.(*ssa.Call); ok && callName(cl) == "(time.Time).After" && !truth {
 					continue
 				}
+				if !truth && isExpiredNowTest(v, stF.Params[3], false) {
+					continue
+				}
 				if g.Derived {
 					continue
 				}
@@ -453,10 +456,8 @@ func runC11(c *Ctx) {
 					for _, truth := range []bool{true, false} {
 						g := guard{Cond: iff.Cond, Truth: truth, If: iff}
 						v, t := g.asBool()
-						if cl, ok := v.(*ssa.Call); ok && callName(cl) == "(time.Time).After" && t && cl.Call.Args[1] == ssa.Value(stF.Params[3]) {
-							if c2, ok := cl.Call.Args[0].(*ssa.Call); ok && callName(c2) == "time.Now" {
-								removed[edge{iff.Block(), succOnTruth(iff, truth)}] = true
-							}
+						if t && isExpiredNowTest(v, stF.Params[3], true) {
+							removed[edge{iff.Block(), succOnTruth(iff, truth)}] = true
 						}
 					}
 				})
@@ -681,6 +682,13 @@ func checkExpiryGuards(c *Ctx) {
 				continue
 			}
 			if b, ok := constBool(vals[2]); ok && !b {
+				// a miss hands out nothing: callers (the cache plugin's lookup among them) test the value, not ok
+				zero := func(v ssa.Value) bool {
+					cst, isC := v.(*ssa.Const)
+					return isC && (cst.Value == nil || isNilConst(v))
+				}
+				c.check(zero(vals[0]), "miss-return@"+funcName(get), instrPos(r), "a miss returns the zero value",
+					"Get returns "+exprStr(vals[0])+" together with ok == false (absent or expired entry): callers that test the value instead of ok — the cache plugin's lookup does — serve an entry that has expired")
 				continue
 			}
 			// need a guard: (expirationTime).Before(now) == false   or   now.After(exp)==false / !now.Before..
@@ -787,4 +795,33 @@ func isExpiredHelper(h *ssa.Function) bool {
 		return cl.Call.Args[0] == ssa.Value(h.Params[1]) && isExp(cl.Call.Args[1])
 	}
 	return false
+}
+
+// isExpiredNowTest: v is `now.After(exp)` or its mirror `exp.Before(now)` (time.Time.After/Before are exact mirrors);
+// with needNow the clock operand must be a time.Now() call.
+func isExpiredNowTest(v ssa.Value, exp ssa.Value, needNow bool) bool {
+	cl, ok := v.(*ssa.Call)
+	if !ok || len(cl.Call.Args) != 2 {
+		return false
+	}
+	var now ssa.Value
+	switch callName(cl) {
+	case "(time.Time).After":
+		if cl.Call.Args[1] != exp {
+			return false
+		}
+		now = cl.Call.Args[0]
+	case "(time.Time).Before":
+		if cl.Call.Args[0] != exp {
+			return false
+		}
+		now = cl.Call.Args[1]
+	default:
+		return false
+	}
+	if !needNow {
+		return true
+	}
+	c2, ok := now.(*ssa.Call)
+	return ok && callName(c2) == "time.Now"
 }
